@@ -189,3 +189,9 @@ package providers
 //@ prop C04 C14
 //@ ensures[refreshed-iff-the-oidc-refresh-says-so] called(oidcRefreshFunc) && ret0 == ret0(oidcRefreshFunc) && ret1 == ret1(oidcRefreshFunc)
 //@     && arg(oidcRefreshFunc, 1) == s
+
+//@ func NewOIDCProvider
+//@ prop C19 C04
+//@ ensures[nonnil:oidc-provider-over-the-given-provider-data] result != nil && result.ProviderData == p && result.SkipNonce == opts.InsecureSkipNonce
+//@ prop C19
+//@ scan[nonnil:oidc-provider-allocated-by-its-constructor] alloc-of providers.OIDCProvider providers.NewOIDCProvider
